@@ -12,6 +12,7 @@ Together: the OK that justifies a BEGIN is an OK line the bus wrote (`begin_need
 -/
 import TxdbusModel.Proofs.Auth.Handshake2Bytes
 import TxdbusModel.Proofs.Auth.ClientSafety
+import TxdbusModel.Proofs.Auth.ServerRun
 
 namespace Txdbus.Handshake2
 
@@ -534,5 +535,136 @@ theorem begin_needs_bus_ok {cfg : Cfg} {st : State} (hw : Wire cfg st) (hb : Aut
   show Ev.recv okl ∈ st.c.trace
   rw [hsplit]
   exact List.mem_append_left _ hpre
+
+/-! ## the bus's part of a composed run is a run of C06's model -/
+
+theorem runReads_snoc (p : SProto) (reads : List Bytes) (d : Bytes) :
+    AuthServer.runReads real p (reads ++ [d]) = AuthServer.recv real (AuthServer.runReads real p reads) d := by
+  induction reads generalizing p with
+  | nil => rfl
+  | cons a t ih => simp only [List.cons_append, AuthServer.runReads]; exact ih _
+
+/-- PROJECTION: the bus component of the composition after any schedule is C06's `runReads` of the real
+mechanisms from `Proto.init` on some list of non-empty reads (the pieces the adversary delivered).  Every theorem
+of C06 about `runReads real (Proto.init guid w) reads` therefore holds of the composition - without `Hyp`. -/
+theorem bus_is_runReads (cfg : Cfg) (ms : List Move) :
+    ∃ reads, (∀ r ∈ reads, r ≠ []) ∧
+      (run cfg (init cfg) ms).s = AuthServer.runReads real (AuthServer.Proto.init cfg.guid cfg.w0) reads := by
+  have key : ∀ (ms : List Move) (st : State),
+      (∃ reads, (∀ r ∈ reads, r ≠ []) ∧ st.s = AuthServer.runReads real (AuthServer.Proto.init cfg.guid cfg.w0) reads) →
+      ∃ reads, (∀ r ∈ reads, r ≠ []) ∧
+        (run cfg st ms).s = AuthServer.runReads real (AuthServer.Proto.init cfg.guid cfg.w0) reads := by
+    intro ms
+    induction ms with
+    | nil => intro st h; exact h
+    | cons m t ih =>
+      intro st h
+      apply ih
+      obtain ⟨reads, hne, hs⟩ := h
+      cases m with
+      | toServer n =>
+        show ∃ reads, _ ∧ (toServer n st).s = _
+        unfold toServer
+        split
+        · exact ⟨reads, hne, hs⟩
+        · rename_i a t' hq
+          refine ⟨reads ++ [(a :: t').take (n + 1)], ?_, ?_⟩
+          · intro r hr
+            rcases List.mem_append.1 hr with hr | hr
+            · exact hne r hr
+            · simp only [List.mem_singleton] at hr; rw [hr]; simp
+          · rw [runReads_snoc, ← hs, hq]; rfl
+      | toClient n =>
+        show ∃ reads, _ ∧ (toClient cfg n st).s = _
+        unfold toClient
+        split
+        · exact ⟨reads, hne, hs⟩
+        · exact ⟨reads, hne, hs⟩
+  exact key ms (init cfg) ⟨[], fun _ h => (nomatch h), rfl⟩
+
+/-- C06's safety theorem in the composition, without `Hyp`: if the bus is authenticated after a schedule, its log
+decomposes as `pre ++ a :: (mid ++ [b])` with `a` an accepting step of an offered mechanism, `b` the BEGIN line and
+no rejection in between; and it did not close. -/
+theorem bus_authenticated_only_after_accept (cfg : Cfg) (ms : List Move)
+    (h : (run cfg (init cfg) ms).s.authenticated = true) :
+    AuthServer.AuthWitness real.offered (run cfg (init cfg) ms).s.log ∧ (run cfg (init cfg) ms).s.closed = false := by
+  obtain ⟨reads, _, hs⟩ := bus_is_runReads cfg ms
+  rw [hs] at h ⊢
+  have hinv := AuthServer.runReads_inv real cfg.guid _ reads (AuthServer.inv_init real cfg.guid cfg.w0)
+  exact ⟨((hinv.2.1 h)).1, ((hinv.2.1 h)).2.2⟩
+
+/-! ## no binary byte reaches the binary branch while the bus is in line mode - no hypothesis -/
+
+theorem recvLines_binary_nil (p : SProto) (d : Bytes) (ha : p.authenticated = false) (hb : p.binary = [])
+    (h : (AuthServer.recvLines real p d).authenticated = false) : (AuthServer.recvLines real p d).binary = [] := by
+  rw [AuthServer.recvLines_eq] at h ⊢
+  have hf := AuthServer.lineLoop_frame real (p.setBuf (AuthServer.splitCRLF (p.buffer ++ d)).2)
+    (AuthServer.splitCRLF (p.buffer ++ d)).1
+  cases hk : AuthServer.lineLoop real (p.setBuf (AuthServer.splitCRLF (p.buffer ++ d)).2) (AuthServer.splitCRLF (p.buffer ++ d)).1 with
+  | mk q k =>
+    rw [hk] at hf
+    try rw [hk] at h
+    try rw [hk]
+    simp only at hf h ⊢
+    have hqb : q.binary = [] := hf.2.2.2.2.trans hb
+    cases k with
+    | done => simp only at h ⊢; split <;> simpa using hqb
+    | ret => exact hqb
+    | success rest => exact absurd h (by simp [AuthServer.Proto.handOff])
+
+theorem recv_binary_nil (p : SProto) (d : Bytes) (hb : p.authenticated = false → p.binary = [])
+    (h : (AuthServer.recv real p d).authenticated = false) : (AuthServer.recv real p d).binary = [] := by
+  cases hc : p.crashed with
+  | true =>
+    rw [AuthServer.recv_crashed real p d hc] at h ⊢
+    exact hb h
+  | false =>
+    cases ha : p.authenticated with
+    | true =>
+      rw [AuthServer.recv_auth real p d hc ha] at h
+      exact absurd (show p.authenticated = false from h) (by rw [ha]; decide)
+    | false =>
+      cases hf : p.firstByte with
+      | true =>
+        cases d with
+        | nil =>
+          have : AuthServer.recv real p [] = p.crash := by simp [AuthServer.recv, hc, ha, hf]
+          rw [this]; exact hb ha
+        | cons b t =>
+          by_cases hb0 : b = 0
+          · subst hb0
+            rw [AuthServer.recv_first_nul real p t hc ha hf] at h ⊢
+            exact recvLines_binary_nil p.dropFirst t ha (hb ha) h
+          · rw [AuthServer.recv_first_bad real p b t hc ha hf hb0]
+            exact hb ha
+      | false =>
+        rw [AuthServer.recv_lines real p d hc ha hf] at h ⊢
+        exact recvLines_binary_nil p d ha (hb ha) h
+
+/-- While the bus is in line mode its binary branch has received nothing - in every reachable state, no hypothesis. -/
+theorem bus_line_mode_binary_empty (cfg : Cfg) (ms : List Move) :
+    (run cfg (init cfg) ms).s.authenticated = false → (run cfg (init cfg) ms).s.binary = [] := by
+  have key : ∀ (ms : List Move) (st : State), (st.s.authenticated = false → st.s.binary = []) →
+      ((run cfg st ms).s.authenticated = false → (run cfg st ms).s.binary = []) := by
+    intro ms
+    induction ms with
+    | nil => intro st h; exact h
+    | cons m t ih =>
+      intro st h
+      apply ih
+      cases m with
+      | toServer n =>
+        show (toServer n st).s.authenticated = false → (toServer n st).s.binary = []
+        unfold toServer
+        split
+        · exact h
+        · exact fun h' => recv_binary_nil st.s _ h h'
+      | toClient n =>
+        show (toClient cfg n st).s.authenticated = false → (toClient cfg n st).s.binary = []
+        unfold toClient
+        split
+        · exact h
+        · exact h
+  exact key ms (init cfg) (fun _ => rfl)
 
 end Txdbus.Handshake2
